@@ -269,6 +269,19 @@ def run_case(ctx, case):
     ename, f = ents[p['entry'] % len(ents)]
     layout = p.get('layout', 'C')
     x = UTPM(gen.relayout(data, layout))
+    if rng.random() < 0.5:
+        # the operand object has a past: it held other coefficients when a related function (same domain: sin before cos, exp
+        # before expm1, ...) was evaluated on it, and was then updated in place to the data of this case
+        sibs = sorted(k for k, v in T().items() if (v['cdom'] if cplx else v['dom']) == dom and k not in PIECEWISE and k != 'pow_utpm')
+        sib = {'sin': 'cos', 'cos': 'sin', 'sinh': 'cosh', 'cosh': 'sinh', 'tan': 'cos'}.get(name) if rng.random() < 0.5 else None
+        if sib not in sibs:
+            sib = sibs[int(rng.integers(len(sibs)))]
+        x.data[...] = gen.series_data(rng, D, P, shape, dom, 'random', cplx)
+        try:
+            sorted(T()[sib]['entries'].items())[0][1](x)
+        except Exception:
+            pass
+        x.data[...] = data
     try:
         y = f(x)
     except Exception as e:
@@ -365,7 +378,20 @@ def _piecewise(ctx, p, rng):
                 lo, hi = (0.1, 0.3) if p['entry'] % 2 else (-0.3, -0.1)   # every |x0|>=0.4 is outside (on either side)
                 if (p['entry'] // 2) % 3 == 1:
                     lo, hi = (0.1, np.inf) if lo > 0 else (-np.inf, -0.1)          # one open side: inside where beyond the finite bound on the open side
+            if shape and (p['entry'] // 4) % 3 == 2:
+                # one interval per element (numpy.clip accepts array bounds; also as a list, or one of them an array): some elements
+                # inside their own interval, others outside it but inside the envelope [min lo, max hi]
+                mid = rng.uniform(-2.5, 2.5, size=shape)
+                lo, hi = mid - 0.6, mid + 0.6
+                k = int(rng.integers(4))
+                if k == 1:
+                    lo, hi = lo.tolist(), hi.tolist()
+                elif k == 2:
+                    lo = float(np.min(lo)) - 1.0
+                elif k == 3:
+                    hi = float(np.max(hi)) + 1.0
             y = [algopy.special.botched_clip(lo, hi, x), UTPM.botched_clip(lo, hi, x)][p['entry'] % 2]
+            lo, hi = np.asarray(lo), np.asarray(hi)
             inside = (data[0] >= lo) & (data[0] <= hi)
             ref = data * inside
             ref[0] = np.clip(data[0], lo, hi)
